@@ -34,7 +34,9 @@ func runC02(c *rt.Ctx) {
 		Cfg{Orca: "l1l2b", Lock: "none", Proto: "binary", L1H: "batched"})
 	// the L1/L2 deployments as the real main program builds them (memproxy --l2-enabled ...)
 	cfgs = append(cfgs, Cfg{Orca: "l1l2b", Lock: "none", Proto: "binary", L1H: "std", App: true}, Cfg{Orca: "l1l2b", Lock: "multi", Proto: "text", L1H: "std", App: true, Conc: 2},
-		Cfg{Orca: "l1l2b", Lock: "single", Proto: "binary", L1H: "chunked", App: true, Conc: 2})
+		Cfg{Orca: "l1l2b", Lock: "single", Proto: "binary", L1H: "chunked", App: true, Conc: 2},
+		// redundant handler flags (--chunked --l1-batched): one L1 handler kind for both ports
+		Cfg{Orca: "l1l2b", Lock: "none", Proto: "text", L1H: "chunked", App: true, Also: "l1-batched"})
 	maxLen, depth := 2, 4
 	if c.Thorough() {
 		maxLen, depth = 4, 0
